@@ -54,7 +54,7 @@ let run_op ctx (toks : string list) =
       let l = tlvs_of_tokens attrs in
       let l' = addttlattr (n_of_int (int_of_string t0)) (n_of_int (int_of_string t1)) (n_of_int (int_of_string a)) l in
       pr "obs %d addttl%s\n" ctx.opidx (str_of_tlvs l')
-  | op :: _ when Ops.run ctx.opidx (impl_obs ctx) toks -> ignore op
+  | op :: _ when (Ops.impl_all_lines := List.rev (Hashtbl.find_all ctx.impl ctx.opidx); Ops.run ctx.opidx (impl_obs ctx) toks) -> ignore op
   | op :: _ when Pipe.run ctx.opidx (List.rev (Hashtbl.find_all ctx.impl ctx.opidx)) toks -> ignore op
   | op :: _ -> pr "obs %d unknown-op %s\n" ctx.opidx op
   | [] -> ());
